@@ -75,7 +75,7 @@ type roundCase struct {
 // terminal kinds end the client connection.
 func terminal(kind string) bool {
 	switch kind {
-	case "ok", "status", "chunked", "auth407", "deny403", "refused", "reset-head", "timeout", "viaup", "connect-reject",
+	case "ok", "status", "chunked", "auth407", "deny403", "refused", "reset-head", "timeout", "viaup", "connect-reject", "f12-plain",
 		"connect-dialfail", "connect-denied", "connect-auth407":
 		return false
 	}
@@ -88,13 +88,11 @@ func knownClass(rc *roundCase) string {
 	var walk func(xs []xspec)
 	walk = func(xs []xspec) {
 		for _, x := range xs {
-			switch {
-			case x.Kind == "f12-plain" || x.Kind == "f12-mitm":
-				cls = "connect-rejection-via-transport" // F12
-			case x.Kind == "connect-reject" && x.Status == 101:
-				if cls == "" {
-					cls = "connect-rejection-status-101" // F40
-				}
+			// a CONNECT — the client's, or the proxy transport's own (f12-*) — that the upstream proxy
+			// answers with 101. (A transport-level rejection with any other status is the repaired F12:
+			// no class, a failure there is a violation.)
+			if (x.Kind == "connect-reject" || x.Kind == "f12-plain" || x.Kind == "f12-mitm") && x.Status == 101 {
+				cls = "connect-rejection-status-101" // F40
 			}
 			walk(x.Inner)
 		}
@@ -825,7 +823,7 @@ func (rr *roundRun) runExchange(cl *cli, x *xspec) (alive bool) {
 		}
 		in := &cli{c: cl.c, inner: true, host: host}
 		if x.Kind == "f12-mitm" {
-			rr.f12(in, "/x", host, x.Kind)
+			rr.f12(in, "/x", host, x)
 			cl.c.Close()
 			return false
 		}
@@ -843,9 +841,7 @@ func (rr *roundRun) runExchange(cl *cli, x *xspec) (alive bool) {
 
 	case "f12-plain":
 		host := fmt.Sprintf("reject%d.test", x.Status)
-		rr.f12(cl, "https://"+host+"/x", host, x.Kind)
-		cl.c.Close()
-		return false
+		return rr.f12(cl, "https://"+host+"/x", host, x)
 
 	case "upgrade":
 		target, host := cl.target("origin.test", "/upgrade")
@@ -988,15 +984,33 @@ func readHeadOnly(br *bufio.Reader) (int, error) {
 	}
 }
 
-// f12 sends a GET whose CONNECT the upstream proxy rejects inside the proxy's transport.
-func (rr *roundRun) f12(cl *cli, target, host, kind string) {
-	cl.c.Send(request("GET", target, host, true, nil, nil, false), nil)
-	m, err := cl.c.ReadResponse("GET", ioTimeout)
-	if m == nil || m.Status == 0 {
-		rr.add(xres{Kind: kind, Path: pathAtom("transportConnectRejected", "GET", 0, true), Method: "GET", Failed: fmt.Sprintf("no response: %v", err)})
-		return
+// f12 sends a request whose CONNECT the upstream proxy rejects inside the proxy's transport (the
+// path of the repaired F12): the rejection is relayed as the answer to this request, so it is
+// reported under the request's method and the connection goes on as the client asked.
+func (rr *roundRun) f12(cl *cli, target, host string, x *xspec) (alive bool) {
+	method := x.Method
+	if method == "" {
+		method = "GET"
 	}
-	rr.add(xres{Kind: kind, Path: pathAtom("transportConnectRejected", "GET", m.Status, false), Method: "GET", Status: m.Status, Note: m.Proto})
+	var body []byte
+	if method == "POST" || method == "PUT" {
+		body = bytes.Repeat([]byte{'q'}, x.Body)
+	}
+	cl.c.Send(request(method, target, host, true, nil, body, false), nil)
+	m, err := cl.c.ReadResponse(method, ioTimeout)
+	if m == nil || m.Status == 0 {
+		rr.add(xres{Kind: x.Kind, Path: pathAtom("transportConnectRejected", method, 0, true), Method: method, Failed: fmt.Sprintf("no response: %v", err)})
+		return false
+	}
+	r := xres{Kind: x.Kind, Path: pathAtom("transportConnectRejected", method, m.Status, false), Method: method, Status: m.Status, Note: m.Proto}
+	if m.Proto != "HTTP/1.1" {
+		r.Failed = "status line with protocol " + m.Proto + " in answer to an HTTP/1.1 request"
+	}
+	rr.add(r)
+	if m.Status/100 == 1 {
+		return false
+	}
+	return err == nil && m.Complete && !connClose(m)
 }
 
 func (rr *roundRun) runConn(cs *connSpec) {
